@@ -1398,15 +1398,30 @@ class NoneOpcode(Opcode):
         interpreter.stack.append(make_constant(None))
 
 
-class NewTrue(Opcode):
+class NewTrue(ConstantOpcode):
     name = "NEWTRUE"
+    # booleans are integers too: claim them before any integer opcode does
+    priority = 10
+
+    @classmethod
+    def validate(cls, obj):
+        if obj is not True:
+            raise ValueError(f"{cls.__name__} can only be instantiated from True, not {obj!r}")
+        return obj
 
     def run(self, interpreter: Interpreter):
         interpreter.stack.append(make_constant(True))
 
 
-class NewFalse(Opcode):
+class NewFalse(ConstantOpcode):
     name = "NEWFALSE"
+    priority = NewTrue.priority + 1
+
+    @classmethod
+    def validate(cls, obj):
+        if obj is not False:
+            raise ValueError(f"{cls.__name__} can only be instantiated from False, not {obj!r}")
+        return obj
 
     def run(self, interpreter: Interpreter):
         interpreter.stack.append(make_constant(False))
